@@ -8,6 +8,7 @@ import Adb.Spec.Pattern
 import Adb.Spec.Options
 import Adb.Model.Wire
 import Adb.Model.Lists
+import Adb.Model.Url
 /-
   One-line-in / one-line-out driver.  Every answer has the form  `M=<model> S=<spec> D=<0|1>`:
   the output of the model that mirrors the code, the output of the reference semantics, and whether
@@ -45,6 +46,22 @@ def showMeta (m : Lists.Meta) : String :=
     | some (.days n) => s!"D{n}"
   ";".intercalate [optHex m.homepage, optHex m.title, e, optHex m.redirect]
 
+def showDots (l : List Hash) : String := ".".intercalate (l.map toString)
+
+/-- `type,http,https,supported,3p,url,hostname,srcHashes,tokens` -/
+def showReq (q : Request) : String :=
+  ",".intercalate [q.tyName, showBool q.isHttp, showBool q.isHttps, showBool q.isSupported, showBool q.thirdParty,
+    hex q.url, hex q.hostname, (match q.srcHashes with | some l => "+" ++ showDots l | none => "-"),
+    (if q.url.all (fun c => c.val < 128) then showDots q.tokens else "?")]
+
+/-- IDNA as a function built from the harness' hints: the raw host of the request URL maps to the
+    first hint, anything else to the second -/
+def idnaFrom (url : Str) (hu hs : Option Str) : Str → Option Str :=
+  let rawU := match Url.parseUrl (fun s => some s) url with
+    | some p => p.host
+    | none => []
+  fun s => if s == rawU then hu else hs
+
 /-- canonical outcome of `parse_filter` (the cosmetic parser and IDNA are outside the model) -/
 def showPline (f t : String) (line : Str) : String :=
   let fmt := if f == "H" then Lists.Format.hosts else Lists.Format.standard
@@ -73,6 +90,31 @@ def step (line : String) : String :=
       ans (optHex (Removeparam.rewrittenUrl important url names))
           (optHex (Removeparam.spec important url names)) true
     | _, _ => "bad-op"
+  -- C12: the URL scanner and the request constructors
+  | ["url", u, hint] => match unhex u, unoptHex hint with
+      | some url, some h =>
+        let o := match Url.parseUrl (fun _ => h) url with
+          | some p => ";".intercalate [hex p.scheme, hex p.host, hex p.url]
+          | none => "NONE"
+        ans o o true
+      | _, _ => "bad-op"
+  | ["rnew", u, sr, ty, hu, hs, du, ds] =>
+    match unhex u, unhex sr, unhex ty, unoptHex hu, unoptHex hs, unhex du, unhex ds with
+    | some url, some src, some ty, some hu, some hs, some du, some ds =>
+      let idna := idnaFrom url hu hs
+      let hostU := match Url.parseUrl idna url with | some p => p.host | none => []
+      let domainOf := fun (h : Str) => if h == hostU then du else ds
+      let o := match Url.requestNew idna domainOf url src ty with
+        | some q => showReq q
+        | none => "ERR"
+      ans o o true
+    | _, _, _, _, _, _, _ => "bad-op"
+  | ["rpre", u, h, sh, ty, tp] =>
+    match unhex u, unhex h, unhex sh, unhex ty with
+    | some url, some h, some sh, some ty =>
+      let o := showReq (Url.requestPreparsed url h sh ty (tp == "1"))
+      ans o o true
+    | _, _, _, _ => "bad-op"
   -- C11: one list line through `parse_filter`
   | ["pline", f, t, l] => match unhex l with
       | some line => let o := showPline f t line; ans o o true
